@@ -347,3 +347,22 @@ func nativeSelect(hasDefault bool, cases []Case) int {
 	}
 	return i
 }
+
+// SendTo is the curried form used by the rewriter so that T is inferred from
+// the channel alone and the value is converted by assignability.
+func SendTo[T any](ch chan<- T) func(T) {
+	site := caller(2)
+	return func(v T) {
+		x := cur
+		if x == nil || x.finished {
+			ch <- v
+			return
+		}
+		x.doSelect(site, []selCase{{send: true, cs: x.chanOf(ch), val: v}}, false)
+	}
+}
+
+// SendCaseTo is the curried form of SendCase.
+func SendCaseTo[T any](ch chan<- T) func(T) *SendC[T] {
+	return func(v T) *SendC[T] { return &SendC[T]{ch: ch, v: v} }
+}
